@@ -251,7 +251,7 @@ def run(chk: core.Check):
             run_stack(label, mk, [t])
     pairs = list(itertools.product(table, table))
     for li, (label, mk) in enumerate(libs):
-        sel = pairs if (li in (1, 3) and chk.tier == "thorough") else rnd.sample(pairs, n2)
+        sel = pairs if (li in (1, 3) and chk.tier == "thorough") else rnd.sample(pairs, min(n2, len(pairs)))
         for a, b in sel:
             run_stack(label, mk, [a, b])
     for _ in range(n3):
